@@ -15,7 +15,10 @@ EXPLANATION = (
     "order-exposing operation; (W2) no call to time/randomness/env/pid/address sources outside the tabled schema-location lookup; "
     "(W3) every collection-typed field of the IR, the type space, the settings and the output space is BTreeMap/BTreeSet/Vec and "
     "schemars::Map does not resolve to an insertion-ordered map; (W4) every render entry point takes &self, TypeSpace's reachable "
-    "field types contain no interior mutability, and the crates define no mutable/thread-local static."
+    "field types contain no interior mutability, and the crates define no mutable/thread-local static; (W5) in the two front ends "
+    "the *location* of the schema document (the CLI's input path, the macro's schema literal and the directory it is resolved "
+    "against) reaches only the call that reads the file, diagnostics and the macro's include_str! anchor - never the document, "
+    "the settings or the type space."
 )
 ASSUMPTIONS = [
     "dependencies (heck, quote, serde_json, regress, prettyplease/rustfmt) are deterministic",
@@ -282,4 +285,114 @@ def run(facts, rep, tier):
             if "std::thread::LocalKey<" in t:
                 rep.ob("C12.W4", "thread-local:%s" % ckey, False, "thread_local! in use: %s" % t[:100])
                 break
+    check_location_taint(facts, rep)
     rep.sample({"rule": "C12.W4", "render_entries": [f["fn"] for f in render_entries][:8], "statics": nst, "reachable_adts": sorted(seen)[:12]})
+
+
+# ---------------------------------------------------------------- W5 the document's location is not an input of the generator
+READ_SINKS = ("fs::read_to_string", "fs::File::open", "fs::read", "File::open")
+DIAG_SINKS = ("syn::Error::new", "into_syn_err", "wrap_err", "wrap_err_with", "eyre", "context", "with_context")
+DIAG_MACROS = ("format", "panic", "eprintln", "eprint", "bail", "eyre")
+
+
+def check_location_taint(facts, rep):
+    from lib import Canon, nodes, src, binding_let, uses_of_let, strip_refs
+    RULE = "C12.W5"
+    routes = []
+    for ckey in ("cargo_typify", "typify_macro"):
+        c = facts[ckey]
+        for h in c.user_fns():
+            if any(x.get("k") == "mcall" and x["name"] == "add_root_schema" for x, _ in walk(h["body"])):
+                routes.append((ckey, c, h))
+    if not rep.floor(RULE, "front-end routes (fns calling add_root_schema)", len(routes), 2):
+        return
+    nseeds = 0
+    for ckey, c, h in routes:
+        def is_seed(n):
+            if n.get("k") == "field" and n.get("name") == "input" and "CliArgs" in c.ty(n.get("bty")):
+                return "the input path"
+            if n.get("k") == "call" and (n.get("fn", "").endswith("env::var") or n.get("fn", "").endswith("env::current_dir") or n.get("fn", "").endswith("env::var_os")):
+                return "the build directory"
+            if n.get("k") == "mcall" and n["name"] in ("value", "span") and "LitStr" in c.ty((strip_refs(n["recv"]) or {}).get("ty")):
+                return "the schema literal"
+            return None
+        tainted = []  # let statements holding a location
+
+        def occurrences():
+            for n, anc in walk(h["body"]):
+                what = is_seed(n)
+                if what:
+                    yield n, anc, what
+                elif n.get("k") == "path" and n.get("res") == "local":
+                    b = binding_let(h, n)
+                    if b is not None and any(b is t for t in tainted):
+                        yield n, anc, "`%s` (derived from the document's location)" % n["path"]
+
+        def sink(n, anc):
+            """the innermost enclosing construct that consumes the location legitimately, or None"""
+            for a in reversed(anc):
+                k = a.get("k")
+                if k in ("call", "mcall"):
+                    fn = a.get("fn", "") if k == "call" else a.get("fn", a.get("name", ""))
+                    nm = a.get("name", "") if k == "mcall" else fn
+                    if any(fn.endswith(s_) for s_ in READ_SINKS):
+                        return "read"
+                    if any(fn.endswith(s_) or nm == s_ for s_ in DIAG_SINKS):
+                        return "diagnostic"
+                if k == "macro" and a.get("name") in DIAG_MACROS:
+                    return "diagnostic"
+                if k == "macro" and a.get("name") == "quote":
+                    t = facts.template_at(a.get("sp"))
+                    # the hole this value fills must be the whole argument of include_str!
+                    for x in a.get("args", []):
+                        if x.get("hole") and (x is n or any(y is n for y, _ in walk(x))):
+                            ln, col = (x.get("sp", "::0:0").rsplit(":", 2) + ["0", "0"])[1:3]
+
+                            def find(tt):
+                                for i_, tk in enumerate(tt):
+                                    if tk.get("t") == "group":
+                                        body = tk.get("body", [])
+                                        if (i_ >= 2 and tt[i_ - 1].get("s") == "!" and tt[i_ - 2].get("s") == "include_str" and len(body) == 1
+                                                and body[0].get("t") == "hole" and str(body[0].get("line")) == ln and str(body[0].get("col")) == col):
+                                            return True
+                                        if find(body):
+                                            return True
+                                return False
+                            if t and find(t.get("tt", [])):
+                                return "anchor"
+                    return None
+            return None
+
+        # pass 1: propagate through lets in source order
+        for n, anc in walk(h["body"]):
+            if n.get("k") == "let" and n.get("init") is not None:
+                inner_ids = {id(x) for x, _ in walk(n["init"])}
+                for o, oanc, what in list(occurrences()):
+                    if id(o) in inner_ids and sink(o, oanc) is None:
+                        if not any(n is t for t in tainted):
+                            tainted.append(n)
+                        break
+        # pass 2: every occurrence is consumed by a sink or only computes another location
+        let_inits = [(t, {id(x) for x, _ in walk(t["init"])}) for t in tainted]
+        per = {}
+        for o, oanc, what in occurrences():
+            nseeds += 1
+            sk = sink(o, oanc)
+            in_loc_let = any(id(o) in ids for t, ids in let_inits)
+            ok = sk is not None or in_loc_let
+            holder = next((a for a in reversed(oanc) if a.get("k") in ("call", "mcall", "assign", "letx", "macro")), None)
+            htxt = (holder.get("fn") or holder.get("name") or holder.get("k")) if holder else "?"
+            kbase = "%s:%s" % (h["fn"].split("::")[-1], "derived location" if what.startswith("`") else what)
+            i = per.get(kbase, 0)
+            per[kbase] = i + 1
+            rep.ob(RULE, "location-consumed:%s#%d" % (kbase, i), ok,
+                   ("%s: %s" % (what, sk or "computes another location")) if ok else
+                   "%s reaches `%s` in %s, which is neither the file read, a diagnostic nor the include_str! anchor: the generated code depends on where the document is stored, not only on its content and the settings" % (what, str(htxt)[-60:], h["fn"]), o.get("sp"))
+        # the tainted lets must not be the document / settings / type space themselves
+        for t in tainted:
+            ty = c.ty((t.get("init") or {}).get("ty"))
+            bad = any(w in ty for w in ("RootSchema", "TypeSpaceSettings", "TypeSpace", "Schema"))
+            names = [b["name"] for b, _ in walk(t["pat"]) if b.get("k") == "bind"]
+            rep.ob(RULE, "location-holder:%s#%d" % (h["fn"].split("::")[-1], [id(x) for x in tainted].index(id(t))), not bad,
+                   "`%s` holds a location (%s)" % (",".join(names), ty[:50]) if not bad else "`%s` (%s) is computed from the document's location" % (",".join(names), ty[:60]), t.get("sp"))
+    rep.floor(RULE, "uses of the document's location in the front ends", nseeds, 8)
